@@ -651,6 +651,7 @@ class Interp:
             out_ty in ("String", "&'staticstr", "&str", "CResult<&'staticstr>", "CResult<Option<String>>", "CResult", "CResult<()>", "()", "u32", "OpenPort", "Option<Mode>")
             or "String" in out_ty
             or out_ty.startswith("Box<dyn")
+            or out_ty.startswith("(")
         )
         if not inline:
             return [(st, H("call", src(callnode), callee=key, args=argv, ty=out_ty))]
